@@ -33,6 +33,9 @@ DIVERGENT_FEATURES = [
     "repanic",              # panic inside a deferred func recovered by an outer frame
     "slice_alias",          # write through a sub-slice is visible in the parent
     "named_results_grouped",  # func f() (x, y int)
+    "min_int64_literal",    # the literal -9223372036854775808 outside a typed var declaration
+    "struct_slice_copy",    # a struct variable stored in a slice must be copied
+    "sized_literal_args",   # untyped constants passed to a sized-int VARIADIC parameter (f(100, 200) with xs ...uint8)
 ]
 FEATURES = CLEAN_FEATURES + DIVERGENT_FEATURES
 
@@ -89,6 +92,11 @@ class _Gen:
             hi = 2 ** 63 - 1
         elif T == "uint64" and hi > 2 ** 63:
             self.use("uint64_big_literal")
+        if lo == -2 ** 63:
+            if self.has("min_int64_literal"):
+                self.use("min_int64_literal")  # may be emitted
+            else:
+                lo += 1
         r = self.r
         if small:
             c = [0, 1, 2, 3, 5, 7, 10]
@@ -670,9 +678,18 @@ class _Gen:
         self.emit("%s(&%s)" % (fp, w))
         self.pr("byptr", "%s.%s" % (w, fn))
         arr = self.fresh("arr")
-        self.emit("%s := []%s{%s, %s}" % (arr, inner, self._struct_lit(inner, structs), w))
+        if self.has("struct_slice_copy"):
+            self.use("struct_slice_copy")
+            second = w
+        else:
+            second = self._struct_lit(inner, structs)
+        self.emit("%s := []%s{%s, %s}" % (arr, inner, self._struct_lit(inner, structs), second))
         self._mutate_field("%s[1]" % arr, fn, ft)
         self.pr("arr", "%s[1].%s" % (arr, fn), "%s.%s" % (w, fn), "len(%s)" % arr)
+        e0 = self.fresh("e")
+        self.emit("%s := %s[0]" % (e0, arr))
+        self._mutate_field(e0, fn, ft)
+        self.pr("elem", "%s.%s" % (e0, fn), "%s[0].%s" % (arr, fn))
 
     def blk_methods(self):
         self.use("methods")
@@ -752,7 +769,13 @@ class _Gen:
         s = self.fresh("xs")
         self.emit("%s := []%s{%s}" % (s, T, ", ".join(self.lit(T) for _ in range(r.randint(1, 4)))))
         self.emit('%s("none")' % f)
-        self.pr("var", '%s("lits", %s)' % (f, ", ".join(self.lit(T) for _ in range(r.randint(1, 3)))))
+        if T == "int" or self.has("sized_literal_args"):
+            if T != "int":
+                self.use("sized_literal_args")
+            args = [self.lit(T) for _ in range(r.randint(1, 3))]
+        else:
+            args = ["%s(%s)" % (T, self.lit(T)) for _ in range(r.randint(1, 3))]
+        self.pr("var", '%s("lits", %s)' % (f, ", ".join(args)))
         self.pr("spread", '%s("spread", %s...)' % (f, s))
         if r.random() < 0.5:
             self.pr("sub", '%s("sub", %s[1:]...)' % (f, s))
@@ -927,7 +950,7 @@ class _Gen:
             ("multiret", self.blk_multiret, 1), ("defer", self.blk_defer, 1), ("recover", self.blk_recover, 2),
         ]
         avail = [(f, b, w) for f, b, w in table if self.has(f)]
-        nblocks = self.size if self.size else r.randint(2, 4)
+        nblocks = self.size if self.size else r.randint(1, 3)
         will_abort = r.random() < 0.3
         for _ in range(nblocks):
             if not avail:
@@ -950,7 +973,7 @@ class _Gen:
 
 
 def gen_program(rng, idx, features=None, size=None):
-    """features=None -> clean set; size = number of blocks (None: random 2..4)"""
+    """features=None -> clean set; size = number of blocks (None: random 1..3)"""
     feats = CLEAN_FEATURES if features is None else features
     g = _Gen(rng, idx, feats, size)
     text = g.build()
@@ -1086,12 +1109,270 @@ def first_diff(r):
     return "abort bit: go=%s ego=%s (%s)" % (r["go_abort"], r["ego_abort"], r["ego_err"])
 
 
-KNOWN_DIVERGENCES = []
+KNOWN_DIVERGENCES = [{'signature': 'dynamic:literal-assign-retypes-sized-int',
+  'feature': 'lit_assign',
+  'what': 'Under --types dynamic (default, also -o 2) assigning an integer literal to a declared int16/uint32/... variable re-types it to int, so '
+          'later arithmetic no longer wraps (strict and relaxed agree with Go).',
+  'program': 'package main\n\nimport "fmt"\n\nfunc main() {\n\tvar b int16 = 1\n\tb = 30000\n\tb = b * 3\n\tfmt.Println(b)\n}\n',
+  'go': "stdout='24464\\n' abort=False",
+  'ego': "stdout='90000\\n' abort=False ",
+  'ego_args': []},
+ {'signature': 'uint64-literal-above-maxint64',
+  'feature': 'uint64_big_literal',
+  'what': 'An integer literal above MaxInt64 is read as a float and lands in a uint64 as 9223372036854775808 (all type modes).',
+  'program': 'package main\n\nimport "fmt"\n\nfunc main() {\n\tvar e uint64 = 18446744073709551615\n\tfmt.Println(e)\n}\n',
+  'go': "stdout='18446744073709551615\\n' abort=False",
+  'ego': "stdout='9223372036854775808\\n' abort=False ",
+  'ego_args': []},
+ {'signature': 'min-int64-literal-is-float',
+  'feature': 'min_int64_literal',
+  'what': 'The literal -9223372036854775808 is a negated float; it is only repaired by a typed var declaration, in a struct field or an expression '
+          'it stays a float.',
+  'program': 'package main\n'
+             '\n'
+             'import "fmt"\n'
+             '\n'
+             'type S_kd struct {\n'
+             '\tC int64\n'
+             '}\n'
+             '\n'
+             'func main() {\n'
+             '\ts := S_kd{C: -9223372036854775808}\n'
+             '\tfmt.Println(s.C)\n'
+             '}\n',
+  'go': "stdout='-9223372036854775808\\n' abort=False",
+  'ego': "stdout='' abort=True TIMEOUT",
+  'ego_args': []},
+ {'signature': 'map-literal-sized-int-value-rejected',
+  'feature': 'map_sized_literal',
+  'what': "A map literal whose value type is a sized integer rejects untyped constant values with 'wrong map value type'.",
+  'program': 'package main\n\nimport "fmt"\n\nfunc main() {\n\tm := map[string]uint8{"a": 250}\n\tv, ok := m["a"]\n\tfmt.Println(v, ok)\n}\n',
+  'go': "stdout='250 true\\n' abort=False",
+  'ego': "stdout='' abort=True Error: wrong map value type: 250",
+  'ego_args': []},
+ {'signature': 'map-two-value-missing-key-yields-nil',
+  'feature': 'map_missing_value',
+  'what': 'v, ok := m[missing] gives v = <nil> instead of the zero value of the element type.',
+  'program': 'package main\n\nimport "fmt"\n\nfunc main() {\n\tm := map[string]int{"a": 1}\n\tv, ok := m["zz"]\n\tfmt.Println(v, ok)\n}\n',
+  'go': "stdout='0 false\\n' abort=False",
+  'ego': "stdout='<nil> false\\n' abort=False ",
+  'ego_args': []},
+ {'signature': 'runtime-error-skips-pending-defers',
+  'feature': 'defer_runtime_abort',
+  'what': 'When a runtime error (division by zero, index out of range) aborts the program, pending deferred calls are not run; Go runs them (their '
+          'output is on stdout) before aborting.',
+  'program': 'package main\n'
+             '\n'
+             'import "fmt"\n'
+             '\n'
+             'func f_kd() {\n'
+             '\tdefer fmt.Println("deferred in f")\n'
+             '\tz := 0\n'
+             '\tfmt.Println(1 / z)\n'
+             '}\n'
+             '\n'
+             'func main() {\n'
+             '\tdefer fmt.Println("deferred in main")\n'
+             '\tfmt.Println("start")\n'
+             '\tf_kd()\n'
+             '}\n',
+  'go': "stdout='start\\ndeferred in f\\ndeferred in main\\n' abort=True",
+  'ego': "stdout='start\\n' abort=True Error: at f_kd5(line 8), division by zero",
+  'ego_args': []},
+ {'signature': 'panic-in-deferred-func-not-recoverable',
+  'feature': 'repanic',
+  'what': "A panic raised inside a deferred function (after recovering the first one) cannot be recovered by the caller's deferred recover(); ego "
+          "aborts with 'unhandled panic'.",
+  'program': 'package main\n'
+             '\n'
+             'import "fmt"\n'
+             '\n'
+             'func g_kd() {\n'
+             '\tdefer func() {\n'
+             '\t\tfmt.Println("got", recover())\n'
+             '\t\tpanic("again")\n'
+             '\t}()\n'
+             '\tpanic("first")\n'
+             '}\n'
+             '\n'
+             'func h_kd() {\n'
+             '\tdefer func() {\n'
+             '\t\tfmt.Println("h rec", recover())\n'
+             '\t}()\n'
+             '\tg_kd()\n'
+             '}\n'
+             '\n'
+             'func main() {\n'
+             '\th_kd()\n'
+             '\tfmt.Println("done")\n'
+             '}\n',
+  'go': "stdout='got first\\nh rec again\\ndone\\n' abort=False",
+  'ego': "stdout='got first\\npanic: again\\nCall frames:\\n  at: defer g_kd6:6     0  (block 4)\\n' abort=True Error: unhandled panic: again",
+  'ego_args': []},
+ {'signature': 'subslice-is-a-copy',
+  'feature': 'slice_alias',
+  'what': 's[i:j] copies: a write through the sub-slice is not visible in the parent slice (and vice versa).',
+  'program': 'package main\n\nimport "fmt"\n\nfunc main() {\n\ts := []int{1, 2, 3, 4}\n\tt := s[1:3]\n\tt[0] = 99\n\tfmt.Println(s[1], t[0])\n}\n',
+  'go': "stdout='99 99\\n' abort=False",
+  'ego': "stdout='2 99\\n' abort=False ",
+  'ego_args': []},
+ {'signature': 'struct-stored-in-slice-is-aliased',
+  'feature': 'struct_slice_copy',
+  'what': 'A struct variable placed in a slice (literal or append) is stored by reference: mutating the element mutates the variable.',
+  'program': 'package main\n'
+             '\n'
+             'import "fmt"\n'
+             '\n'
+             'type S_kd struct {\n'
+             '\tC int\n'
+             '}\n'
+             '\n'
+             'func main() {\n'
+             '\tw := S_kd{C: 5}\n'
+             '\tarr := []S_kd{S_kd{C: 1}, w}\n'
+             '\tarr[1].C = 7\n'
+             '\tfmt.Println(w.C, arr[1].C)\n'
+             '}\n',
+  'go': "stdout='5 7\\n' abort=False",
+  'ego': "stdout='7 7\\n' abort=False ",
+  'ego_args': []},
+ {'signature': 'variadic-sized-int-literal-args-not-coerced',
+  'feature': 'sized_literal_args',
+  'what': 'Untyped constants passed to a `...uint8` variadic parameter stay int inside the callee, so arithmetic on them does not wrap (a fixed '
+          'parameter `x int8` is coerced correctly).',
+  'program': 'package main\n'
+             '\n'
+             'import "fmt"\n'
+             '\n'
+             'func v_kd(xs ...uint8) {\n'
+             '\tvar t uint8\n'
+             '\tfor _, x := range xs {\n'
+             '\t\tt += x\n'
+             '\t}\n'
+             '\tfmt.Println(t)\n'
+             '}\n'
+             '\n'
+             'func main() {\n'
+             '\tv_kd(200, 100)\n'
+             '}\n',
+  'go': "stdout='44\\n' abort=False",
+  'ego': "stdout='300\\n' abort=False ",
+  'ego_args': []},
+ {'signature': 'grouped-named-results-rejected',
+  'feature': 'named_results_grouped',
+  'what': "A result list that groups names under one type, `(x, y int)`, is a compile error 'invalid return type list' (`(x int, y int)` works).",
+  'program': 'package main\n'
+             '\n'
+             'import "fmt"\n'
+             '\n'
+             'func sw_kd(a int, b int) (x, y int) {\n'
+             '\tx = b\n'
+             '\ty = a\n'
+             '\treturn\n'
+             '}\n'
+             '\n'
+             'func main() {\n'
+             '\tp, q := sw_kd(1, 2)\n'
+             '\tfmt.Println(p, q)\n'
+             '}\n',
+  'go': "stdout='2 1\\n' abort=False",
+  'ego': "stdout='' abort=True Error: at line 5:29, invalid return type list",
+  'ego_args': []},
+ {'signature': 'cli:unhandled-panic-trace-on-stdout',
+  'feature': 'panic_abort',
+  'what': 'For an unrecovered panic("text") ego writes `panic: text`, `Call frames:` and the frame list to STDOUT (Go writes its trace to stderr); '
+          'run_batch strips that trailing block (strip_trace=True) before comparing, raw text is kept in ego_out_raw. Abort bit and prior output '
+          'agree.',
+  'program': 'package main\n\nimport "fmt"\n\nfunc main() {\n\tfmt.Println("a")\n\tpanic("bad thing")\n}\n',
+  'go': "stdout='a\\n' abort=True",
+  'ego': "stdout='a\\npanic: bad thing\\nCall frames:\\n  at: main <file>  10  (file <file>\\n' abort=True Error: unhandled panic: bad thing",
+  'ego_args': []},
+ {'signature': 'strict:struct-field-op-literal-rejected',
+  'feature': 'structs',
+  'what': '--types strict only: arithmetic between a sized-int struct field and an untyped constant (s.A += 100, m.N * 3) is a runtime type error; '
+          'the same on a plain variable works.',
+  'program': 'package main\n'
+             '\n'
+             'import "fmt"\n'
+             '\n'
+             'type S_kd struct {\n'
+             '\tA int8\n'
+             '}\n'
+             '\n'
+             'func main() {\n'
+             '\ts := S_kd{A: 100}\n'
+             '\ts.A += 100\n'
+             '\tfmt.Println(s.A)\n'
+             '}\n',
+  'go': "stdout='-56\\n' abort=False",
+  'ego': "stdout='' abort=True Error: at main(line 11), invalid or unsupported data type for this operation: int",
+  'ego_args': ['--types', 'strict']},
+ {'signature': 'strict:method-field-times-literal-type-mismatch',
+  'feature': 'methods',
+  'what': "--types strict only: `return m.N * 3` with N uint16 fails with 'type mismatch: int, uint16'.",
+  'program': 'package main\n'
+             '\n'
+             'import "fmt"\n'
+             '\n'
+             'type M_kd struct {\n'
+             '\tN uint16\n'
+             '}\n'
+             '\n'
+             'func (m M_kd) Peek() uint16 {\n'
+             '\treturn m.N * 3\n'
+             '}\n'
+             '\n'
+             'func main() {\n'
+             '\tm := M_kd{N: 40000}\n'
+             '\tfmt.Println(m.Peek())\n'
+             '}\n',
+  'go': "stdout='54464\\n' abort=False",
+  'ego': "stdout='' abort=True Error: at Peek(line 10), type mismatch: int, uint16",
+  'ego_args': ['--types', 'strict']},
+ {'signature': 'strict:literal-above-int32-is-int64',
+  'feature': 'slices',
+  'what': '--types strict only: an integer literal that does not fit int32 is typed int64 and is rejected where another type is expected '
+          "([]uint32{2147483648} -> 'wrong array value type: int64'; a large literal passed to `...int` then `x * int(i)` -> 'type mismatch: int64, "
+          "int').",
+  'program': 'package main\n\nimport "fmt"\n\nfunc main() {\n\txs := []uint32{2147483648, 1}\n\tfmt.Println(xs[0], xs[1])\n}\n',
+  'go': "stdout='2147483648 1\\n' abort=False",
+  'ego': "stdout='' abort=True Error: at main(line 6), wrong array value type: int",
+  'ego_args': ['--types', 'strict']}]
+
+
+def known_as_progs():
+    """KNOWN_DIVERGENCES as batch programs (ids kd0..): [(entry, prog)]"""
+    out = []
+    for i, e in enumerate(KNOWN_DIVERGENCES):
+        pid = "kd%d" % i
+        body = e["program"].split('import "fmt"\n', 1)[1].lstrip("\n")
+        body = body.replace("_kd", "_" + pid).replace("func main()", "func prog_%s()" % pid)
+        out.append((e, {"id": pid, "go_funcs": body, "features": [e["feature"]]}))
+    return out
+
+
+def check_known(workdir, ego="/verif/.build/bin/ego"):
+    """re-run every KNOWN_DIVERGENCES program; returns [(signature, still_diverges, result)]"""
+    pairs = known_as_progs()
+    progs = [p for _, p in pairs]
+    res = run_batch(progs, workdir, ego=ego, strip_trace=False)
+    gobin = os.path.join(os.path.abspath(workdir), "batch.bin")
+    out = []
+    for (e, p), r in zip(pairs, res):
+        if e["ego_args"]:
+            r = run_batch([p], workdir, ego=ego, ego_args=e["ego_args"], strip_trace=False, go_bin=gobin)[0]
+        out.append((e["signature"], not r["agree"], r))
+    return out
 
 
 def _main(argv):
     import random
     import tempfile
+    if len(argv) > 1 and argv[1] == "known":
+        for sig, div, r in check_known(os.environ.get("GOSUB_WORKDIR") or tempfile.mkdtemp(prefix="gosub_wide_")):
+            print("%-50s %s go=%r/%s ego=%r/%s %s" % (sig, "DIVERGES" if div else "agrees", r["go_out"], r["go_abort"],
+                                                   r["ego_out"], r["ego_abort"], r["ego_err"]))
+        return 0
     seed = int(argv[1]) if len(argv) > 1 else 1
     n = int(argv[2]) if len(argv) > 2 else 20
     feats = None
